@@ -20,8 +20,16 @@ NOT_APPLICABLE_PURE = {
 CLAIMS = {}
 
 
-def claim(pid, oracle, note=""):
+TECH = {}
+LEVEL_NOTE = {}
+
+
+def claim(pid, oracle, note="", technique=None, level_note=None):
     CLAIMS[pid] = (oracle, note)
+    if technique:
+        TECH[pid] = technique
+    if level_note:
+        LEVEL_NOTE[pid] = level_note
 
 
 claim("C01", "per-task exactly-once counters after ~ThreadPool, over seeded schedules/faults of producers, workers and the destructor drain")
@@ -36,6 +44,29 @@ claim("C06", "termination (deadlock detector + fair-tail step budget) of random 
 claim("C07", "one submission into a fully parked pool, producer then blocks without helping: every body must start without any worker wait timeout expiring while nothing else can run (idle-jump oracle), over wake-choice/stall schedules")
 claim("C08", "ThreadPool::verifWorkRemaining()==0 at quiescent points (all tasks finished, every worker parked) after histories of direct, task-set, ring, placed submissions and resizes", "Uses hook H2.")
 claim("C09", "~ThreadPool / resize / setSignalingWake at an arbitrary point of the workers' loops return without an idle worker-timeout expiry in wake mode, and leave exactly the expected number of live worker threads")
+claim("C10", "no pair of conflicting accesses without a happens-before path: every plain access made by dispenso/moodycamel code "
+      "(fine variants) and every access the harness declares for its payload objects (task inputs/outputs, future results, pipeline "
+      "items, container elements, data guarded by RWLock/Latch/CompletionEvent, allocator blocks) is checked by a vector-clock "
+      "detector that grants only the edges of the declared memory orders (release/acquire/seq_cst, release sequences, fences), "
+      "locks, semaphores, once/static-init, thread create/join and dispenso's own TSAN annotations; every workload of every other "
+      "property is the program space",
+      technique="deterministic simulation with fault injection: every workload runs under the seeded scheduler (real threads parked at "
+                "every atomic/plain-access/futex/mutex point) with an order-aware vector-clock happens-before detector inside the "
+                "simulator deciding, for the explored execution, whether two conflicting accesses are ordered by the program",
+      level_note="Trusted: the detector's encoding of the C++ happens-before rules (simrt/race.cpp; self-tests race-ordered / "
+                 "race-unordered), simrt's kernel model for lock/thread edges. Each explored execution is sequentially consistent "
+                 "(a load reads the latest store): races that need a load to read an older store are not explored. Plain accesses "
+                 "inside std:: templates instantiated by dispenso are not attributed to dispenso. <= 8 simulated threads per run.")
+claim("C11", "no AddressSanitizer / UndefinedBehaviorSanitizer report, no crash and no LeakSanitizer report at the end of any simulated "
+      "run of any workload (all properties' workloads in memory-only mode: throwing bodies, cancellation, resize, shutdown, container "
+      "growth and copies), in two sanitizer builds (with and without the small-buffer allocator, which otherwise recycles blocks and "
+      "hides use-after-free)",
+      technique="deterministic simulation with fault injection (SIM+ASAN engine): ASan+UBSan+LSan builds of dispenso and the harness run "
+                "under the same seeded scheduler, with pre-emption at basic-block granularity (coverage-guard quantum) and at every "
+                "blocking call; sanitizer reports are the oracle, classified by report kind and innermost dispenso frame",
+      level_note="Trusted: the sanitizer runtimes. The atomic-operation seam is unavailable together with ASan, so pre-emption points "
+                 "are basic-block edges of dispenso code and blocking calls; same kernel model and clock as the other checks. A crash "
+                 "or report is replayed by seed (no decision trace file); it must reproduce in a fresh process to be reported.")
 claim("C12", "recorded [b,e) invocations tile [start,end) exactly for 8 integer types, ranges touching the type limits, static/adaptive/explicit chunking, all option combinations, nesting; nothing still running at return")
 claim("C13", "at most one invocation size is not a multiple of the granularity and it ends at the range end, for every start residue, static and adaptive, wait true/false")
 claim("C14", "per-state in-use counters never exceed one; container non-empty afterwards (non-empty ranges), vector/deque/list, reuseExistingState both ways")
@@ -85,17 +116,18 @@ def main():
                 "evidence_file": "evidence/%s.json" % pid,
                 "replay_cmd_template": "./vcheck replay {path}",
                 "engine": "simrt",
-                "technique": TECHNIQUE,
+                "technique": TECH.get(pid, TECHNIQUE),
                 "level_claimed": {
                     "category": "exploration",
                     "text": "Seeded search over schedules, kernel wake choices and injected faults of the real dispenso code under the "
                             "simulator; oracle: " + oracle + ". Sampling, not enumeration: a clean batch is evidence, not proof.",
                     "design_ref": "DESIGN.md §7 " + pid,
                 },
-                "level_note": "Trusted: simrt's model of futex/mutex/cond/semaphore/thread lifecycle and its discrete-event clock; every "
-                              "execution is sequentially consistent (one thread runs at a time); tuning variants default and tiny at atomic-operation granularity plus fine-default, where every plain "
-                              "memory access made by dispenso code is a scheduling point too; "
-                              "<= 8 simulated threads per run." + (" " + note if note else ""),
+                "level_note": LEVEL_NOTE.get(pid) or (
+                    "Trusted: simrt's model of futex/mutex/cond/semaphore/thread lifecycle and its discrete-event clock; every "
+                    "execution is sequentially consistent (one thread runs at a time); tuning variants default and tiny at "
+                    "atomic-operation granularity plus fine-default/fine-tiny, where every plain memory access made by dispenso "
+                    "code is a scheduling point too; <= 8 simulated threads per run." + (" " + note if note else "")),
             })
         elif pid in NOT_APPLICABLE_PURE:
             na.append({"property_id": pid, "reason": NOT_APPLICABLE_PURE[pid]})
